@@ -53,6 +53,11 @@ Accept(doc) ==
 MustReject(doc) == ~Accept(doc)
 \* duplicates of `data` that all agree: an error is always fine, acceptance is tolerated
 MayReject(doc) == Accept(doc) /\ Count(doc, "data") > 1
+\* Documents that are not maps (a sequence, a scalar).  The library asks its format for a map; a data format or a later
+\* version may also offer a positional form [data, num_rows, num_cols].  Layer A does not fix how such a document reads:
+\* it demands what C19 states - no panic, and whatever is accepted has consistent dimensions.
+MayAcceptConsistent(doc) == doc.top # "object"
+ConsistentResult(r) == r.k = "ok" => (r.nc * r.nr = r.n /\ (r.nc = 0 <=> r.nr = 0))
 Expected(doc) == IF Accept(doc)
                  THEN LET nc == TheVal(doc, "num_cols")  nr == TheVal(doc, "num_rows") IN Ok(nc, nr, nc * nr)
                  ELSE Err
